@@ -259,6 +259,29 @@ func Run(name string) string {
 		verifCount++
 		l.mu.Unlock()
 		return seen
+	case "add-after-go": // WaitGroup.Add placed after the go statement: the goroutine's Done may come first (fine-grained mode only)
+		var late sync.WaitGroup
+		res := "ok"
+		func() {
+			defer func() {
+				if recover() != nil {
+					res = "negative"
+				}
+			}()
+			done := make(chan struct{})
+			go func() {
+				defer close(done)
+				defer func() {
+					if recover() != nil {
+						res = "negative"
+					}
+				}()
+				late.Done()
+			}()
+			late.Add(1)
+			<-done
+		}()
+		return res
 	case "race-atomic-plain": // an atomic add outside the lock, a plain read of the same word inside it
 		wg.Add(2)
 		go func() { defer wg.Done(); atomic.AddInt64(&l.cnt, 1) }()
